@@ -105,6 +105,25 @@ NOINSTR static int gate(int op, int *p_idx)
         w_fired = 1;
         walk(fail_bt);
         log_ev(1, op, 1, idx, -1);
+        {   /* breadcrumb for the case that the process dies before it can report */
+            char buf[32 + FI_BT * 20];
+            size_t n = 0;
+            const char *h = "0123456789abcdef";
+            memcpy(buf, "FAILSITE", 8);
+            n = 8;
+            for (int i = 0; i < FI_BT && fail_bt[i]; i++) {
+                uintptr_t a = (uintptr_t)fail_bt[i];
+                buf[n++] = ' ';
+                buf[n++] = '0';
+                buf[n++] = 'x';
+                for (int sft = 60; sft >= 0; sft -= 4)
+                    if ((a >> sft) || sft == 0)
+                        buf[n++] = h[(a >> sft) & 15];
+            }
+            buf[n++] = '\n';
+            ssize_t r = write(2, buf, n);
+            (void)r;
+        }
         return 1;
     }
     return 0;
